@@ -54,6 +54,7 @@ type Frame struct {
 	dryGhostSets map[string]bool // ghost variables assigned during loop dry runs
 	callDepth int
 	snaps     map[string]*State // named state snapshots (`snapshot NAME ...`), read by at(NAME, expr)
+	activeLoops []*loopDesc     // loops whose body is being executed (innermost last)
 }
 
 func (f *Frame) lookupLocal(name string, pos token.Pos) types.Object {
@@ -398,7 +399,19 @@ func (x *X) indexValue(st *State, base, idx Value, check func(*Term)) Value {
 		k = x.assignConv(st, k, u.Key())
 		kt := x.mapKeyTerm(k)
 		has, val := x.mapLoad(st, base, kt)
-		return iteValue(has, val, zeroValue(u.Elem()))
+		if !kt.Bound && !base.S().Bound {
+			// values stored in maps are Go values: slice headers well formed, references allocated
+			x.wfValue(st, val)
+		}
+		iv := iteValue(has, val, zeroValue(u.Elem()))
+		// a ground look-up gets a name: an `ite` inside a larger term keeps that term from serving as a
+		// quantifier pattern (solvers reject patterns with ite), and the look-up is repeated verbatim
+		for i, ct := range iv.C {
+			if ct != nil && !ct.Bound && ct.Op == "ite" {
+				iv.C[i] = x.c.abbreviate("mg", ct)
+			}
+		}
+		return iv
 	case *types.Basic:
 		if u.Info()&types.IsString != 0 {
 			if base.C == nil {
